@@ -117,9 +117,10 @@ def r2(p, rep):
     # does _freeze_value tag leaves with their type?
     typed_leaf = any(isinstance(n, ast.Call) and isinstance(n.func, ast.Name) and n.func.id == "type" for r in ast.walk(fz.node) if isinstance(r, ast.Return) and r.value is not None for n in ast.walk(r.value))
     sites = []
-    for n in walk_no_nested(f.node):
+    for g_ in common.with_helpers(p, f):
+      for n in walk_no_nested(g_.node):
         if isinstance(n, ast.Call):
-            r = p.resolve_expr(f.module, n.func, f.node)
+            r = p.resolve_expr(g_.module, n.func, g_.node)
             if r and r[0] == "external" and r[1] in ("functools.cache", "functools.lru_cache"):
                 typed = any(k.arg == "typed" and isinstance(k.value, ast.Constant) and k.value.value is True for k in n.keywords)
                 # `functools.lru_cache(maxsize=..)(func)`: the inner factory call carries the keyword; skip the outer application
@@ -173,8 +174,43 @@ def r4(p, rep):
             f"undo `{norm(uncond[0].value)[:50]}` runs on every path through __exit__" if ok else "__exit__ does not undo __enter__ on every path (it depends on whether an exception is propagating): a failing call leaves an entry on the stack that alters later calls",
         )
         # enter/exit symmetric: push in enter <-> pop in exit on the same container or delegation to the same class
-        e_calls = [norm(n.value.func) for n in enter_effects]
-        x_calls = [norm(u.value.func) for u in undo]
+        def container_paths(fn, call):
+            """attribute paths the receiver of `<recv>.append/pop/enter/...` may denote (aliases resolved)"""
+            recv = call.func.value if isinstance(call.func, ast.Attribute) else None
+            meth = call.func.attr if isinstance(call.func, ast.Attribute) else norm(call.func)
+            paths = set()
+            if recv is None:
+                return [meth]
+            if isinstance(recv, ast.Name):
+                for a in walk_no_nested(fn.node):
+                    if isinstance(a, ast.Assign):
+                        if any(isinstance(t, ast.Name) and t.id == recv.id for t in a.targets):
+                            v = a.value
+                            if isinstance(v, ast.Call) and isinstance(v.func, ast.Name) and v.func.id == "getattr" and len(v.args) >= 2 and isinstance(v.args[1], ast.Constant):
+                                paths.add(f"{norm(v.args[0])}.{v.args[1].value}")
+                            elif isinstance(v, ast.Call):
+                                r = resolve_callee(p, v, fn.module)
+                                if r and r[0] == "func":
+                                    for ret in walk_no_nested(r[1].node):
+                                        if isinstance(ret, ast.Return) and ret.value is not None:
+                                            paths.add(norm(ret.value))
+                            elif isinstance(v, (ast.Attribute, ast.Name)):
+                                paths.add(norm(v))
+                        if isinstance(a.value, ast.Name) and a.value.id == recv.id:
+                            for t in a.targets:
+                                if isinstance(t, ast.Attribute):
+                                    paths.add(norm(t))
+            elif isinstance(recv, ast.Call):
+                r = resolve_callee(p, recv, fn.module)
+                if r and r[0] == "func":
+                    for ret in walk_no_nested(r[1].node):
+                        if isinstance(ret, ast.Return) and ret.value is not None:
+                            paths.add(norm(ret.value))
+            paths.add(norm(recv))
+            return [f"{pth}.{meth}" for pth in paths]
+
+        e_calls = [x for n in enter_effects for x in container_paths(en, n.value)]
+        x_calls = [x for u in undo for x in container_paths(ex, u.value)]
         pair_ok = False
         why = f"enter {e_calls} / exit {x_calls}"
         for ec in e_calls:
